@@ -5,6 +5,6 @@ VERIF="$(cd "$(dirname "$0")/.." && pwd)"
 export CARGO_NET_OFFLINE=true
 mkdir -p "$VERIF/work" "$VERIF/evidence" "$VERIF/replays"
 rsync -rc --delete --exclude target --exclude .git --exclude '*.png' --exclude '*.pdf' --exclude book "${FROST_REPO:-/repo}/" "$VERIF/mirror/"
-cd "$VERIF/sim" && cargo build --offline -q && cargo build --offline -q --profile nodebug
+cd "$VERIF/sim" && cargo build --offline -q && cargo build --offline -q --profile nodebug --no-default-features --features diag
 python3 "$VERIF/ref/selftest.py"
 echo "setup ok"
